@@ -292,13 +292,16 @@ def dedupe(pairs):
     return out
 
 
-def merge_cons(pairs):
-    """states that differ only in what they assume are replaced by one state assuming the intersection"""
+def merge_cons(pairs, protected=None):
+    """states that differ only in assumptions about analysis data (not about the tree, and not in what
+    `protected` keeps apart) are replaced by one state assuming the intersection"""
     groups = {}
     order = []
     for st, v in pairs:
         try:
-            k = (st.trace, st.exit, v, tuple(sorted(st.env.items(), key=lambda kv: kv[0])), st.stack)
+            prot = frozenset((ck, cv) for ck, cv in st.cons.items()
+                             if ck[0] in ("var", "len", "none") or (protected is not None and protected(ck, cv)))
+            k = (st.trace, st.exit, v, tuple(sorted(st.env.items(), key=lambda kv: kv[0])), st.stack, prot)
             hash(k)
         except TypeError:
             order.append((None, (st, v)))
@@ -331,6 +334,7 @@ class Interp:
         self.sinks = sinks
         self.lookups = lookups
         self.no_inline = tuple(no_inline_prefixes)
+        self.protected = None     # predicate(cons key, value): assumptions that merging must keep apart
         self.pruned = {}          # site -> count  (recursion / loop bound)
         self.inlined = set()
         self.closures = {}
@@ -1615,7 +1619,7 @@ class Interp:
                 s2.stack = st.stack
                 s2.ctx = st.ctx
                 out.append((s2, v))
-        return merge_cons(out) if all(not has_tracked(v) for _s, v in out) else dedupe(out)
+        return merge_cons(out, self.protected) if all(not has_tracked(v) for _s, v in out) else dedupe(out)
 
     def ev_path(self, e, st):
         return [(st, UNK)]
